@@ -75,4 +75,79 @@ def fohD2C (A P Q inv : α) (z : SS α) : SS α :=
   let B := inv * z.B
   ⟨A, B, z.C, z.D - z.C * (Q * B)⟩
 
+/-! ## the whole routines `SSModel.c2d` / `SSModel.d2c`, with the attributes `h`, `method`, `prewarp`
+
+An `SSModel` object is the four matrices plus `h` (`None` = continuous), `method`, `prewarp`.
+`c2d` starts with `if self.h: return self` (truthiness: `None` and `0` count as continuous), `d2c`
+with `if self.h is None: return self`; every conversion builds a *new* object: `c2d` one with
+`h, method` (and `prewarp` for tustin), `d2c` one **without** `h` (`SSModel(A, B, C, D,
+method=method[, prewarp=prewarp])`).  The numerical kernels are data (`Kernels`). -/
+
+inductive Method where
+  | zoh | zoha | foh | tustin
+  deriving DecidableEq, Repr
+
+structure Sys (α τ : Type) where
+  ss : SS α
+  h : Option τ
+  method : Option Method
+  prewarp : Option τ
+
+/-- what `c2d` / `d2c` call: `getEPQ(A, h, 0)` → `expm`, `int1`; `getEPQ(A, h, 1)` → `expm`, `fohP`
+(`= I2/h`), `fohQ` (`= I1 − I2/h`); `logm Z h` the `eig`-based `log(Z)/h`; `inv` what `lu_solve` /
+`la.solve` apply; `kI h prewarp` the scalar `2/h` or `prewarp/tan(prewarp·h/2)` times the identity;
+`half` the scalar `1/2` -/
+structure Kernels (α τ : Type) where
+  expm : α → τ → α
+  int1 : α → τ → α
+  fohP : α → τ → α
+  fohQ : α → τ → α
+  logm : α → τ → α
+  inv : α → α
+  kI : τ → Option τ → α
+  half : α
+
+/-- Python truthiness of the attribute `h` -/
+def truthy {τ : Type} [BEq τ] [OfNat τ 0] : Option τ → Bool
+  | none => false
+  | some x => !(x == 0)
+
+/-- `SSModel.c2d(self, h, method, prewarp)` (a valid `method`; any other string is a `ValueError`) -/
+def Sys.c2d {τ : Type} [BEq τ] [OfNat τ 0] (K : Kernels α τ) (self : Sys α τ) (h : τ) (method : Method)
+    (prewarp : Option τ) : Sys α τ :=
+  if truthy self.h then self
+  else
+    let s := self.ss
+    match method with
+    | .zoh => ⟨zohC2D (K.expm s.A h) (K.int1 s.A h) s, some h, some .zoh, none⟩
+    | .zoha => ⟨zohaC2D (K.expm s.A h) (K.int1 s.A h) K.half s, some h, some .zoha, none⟩
+    | .foh => ⟨fohC2D (K.expm s.A h) (K.fohP s.A h) (K.fohQ s.A h) s, some h, some .foh, none⟩
+    | .tustin =>
+      let k := K.kI h prewarp
+      ⟨tustinC2D k (K.inv (k - s.A)) s, some h, some .tustin, prewarp⟩
+
+/-- `SSModel.d2c(self, method, prewarp)` -/
+def Sys.d2c {τ : Type} (K : Kernels α τ) (self : Sys α τ) (method : Method) (prewarp : Option τ) :
+    Sys α τ :=
+  match self.h with
+  | none => self
+  | some h =>
+    let z := self.ss
+    match method with
+    | .tustin =>
+      let k := K.kI h prewarp
+      ⟨tustinD2C k (K.inv (1 + z.A)) z, none, some .tustin, prewarp⟩
+    | .foh =>
+      let A := K.logm z.A h
+      let P := K.fohP A h
+      let Q := K.fohQ A h
+      ⟨fohD2C A P Q (K.inv (P + z.A * Q)) z, none, some .foh, none⟩
+    | .zoh =>
+      let A := K.logm z.A h
+      ⟨zohD2C A (K.inv (K.int1 A h)) z, none, some .zoh, none⟩
+    | .zoha =>
+      let A := K.logm z.A h
+      let I1 := K.int1 A h
+      ⟨zohaD2C A I1 K.half (K.inv (K.half * I1 + z.A * (K.half * I1))) z, none, some .zoha, none⟩
+
 end PyYetiVerif.SSModel
